@@ -13,7 +13,7 @@ import (
 func init() {
 	register(&propInfo{
 		ID:          "C15",
-		Explanation: "Origin, must-call and site analysis of what happens to server-side work when a connection ends: (R15.1) the context handed to every handler derives, through cancellation-preserving steps only, from the per-connection context whose cancel function is deferred in the connection loop; every loop exit also runs the in-flight failer, which invokes the cancel function of every entry of the handling table; (R15.2) every function that can serve as a writer provider invokes its callback on every path (a response written for a dead connection must not park its handler goroutine); (R15.3) the forwarding goroutine's select set contains the exit signal and returns on it, and the channel registrar's hand-over is a select alternative to the exit signal; (R15.4) channels on which helper goroutines report back to the loop have room for a report that arrives after the loop has exited; (R15.5) the loop's deferred cleanup cannot block (the ping stopper does not wait for anything), so the cancellations are actually reached; (R15.6) exit cleanup is registered before every return of the loop. R15.3 also decides, under the situation 'exit case chosen with ok=false' (comparisons of the chosen index with constants decided, short-circuit phis evaluated over feasible edges), that the forwarder returns before its next select. R15.3 also: no goroutine is started on the forwarder's exit path; R15.5 also: no deferred call of the loop waits on a WaitGroup. (R15.9) once a message was taken from the socket reader every path restarts the reader, signals loss or redials. (R15.10) no blocking read lies in the connection loop's synchronous cone.",
+		Explanation: "Origin, must-call and site analysis of what happens to server-side work when a connection ends: (R15.1) the context handed to every handler derives, through cancellation-preserving steps only, from the per-connection context whose cancel function is deferred in the connection loop; every loop exit also runs the in-flight failer, which invokes the cancel function of every entry of the handling table; (R15.2) every function that can serve as a writer provider invokes its callback on every path (a response written for a dead connection must not park its handler goroutine); (R15.3) the forwarding goroutine's select set contains the exit signal and returns on it, and the channel registrar's hand-over is a select alternative to the exit signal; (R15.4) channels on which helper goroutines report back to the loop have room for a report that arrives after the loop has exited; (R15.5) the loop's deferred cleanup cannot block (the ping stopper does not wait for anything), so the cancellations are actually reached; (R15.6) exit cleanup is registered before every return of the loop. R15.3 also decides, under the situation 'exit case chosen with ok=false' (comparisons of the chosen index with constants decided, short-circuit phis evaluated over feasible edges), that the forwarder returns before its next select. R15.3 also: no goroutine is started on the forwarder's exit path; R15.5 also: no deferred call of the loop waits on a WaitGroup. (R15.9) once a message was taken from the socket reader every path restarts the reader, signals loss or redials. (R15.10) no blocking read lies in the connection loop's synchronous cone. (R15.11) every send on the frame-header channel or the frame queue is a select alternative to the exit signal (or a context's Done): a reader goroutine is not left parked when the loop exits while a frame arrives.",
 		NotDecided:  "Goroutine counts at run time, handlers that ignore their context, a socket reader parked on its bare hand-over when the loop exits at the instant a frame header arrives (observation recorded in DESIGN.md).",
 		Assumptions: []string{"writer providers are the functions that flow into a parameter of type func(func(io.Writer)) of the dispatcher / lazy-writer helper"},
 		Run:         runC15,
@@ -273,6 +273,10 @@ func runC15(c *Ctx) {
 			c.und("R15.4", "read-error report channel", "-", "never made")
 		}
 	}
+
+	// ---- R15.11
+	c.rule("R15.11", "the socket-reading goroutines hand a frame header to the loop and a frame body to the frame executor with a send that is a select alternative to the connection's exit signal (or its context): a plain send parks the reader, with the connection it holds, for ever when the loop exits at the instant a frame has arrived")
+	c.readSideHandOvers("R15.11")
 
 	// ---- R15.5 / R15.6
 	c.cleanupCannotBlock("R15.5")
@@ -570,5 +574,75 @@ func (c *Ctx) loopNeverReadsSocket(rule string) {
 		c.bad(rule, construct, c.ipos(bad), "the connection loop reads a message body itself: while a peer stalls in the middle of a message the loop sits in that read and looks at neither its context nor the stop signal nor the timeout — the connection, its goroutines and its handlers' cleanup are retained")
 	} else {
 		c.ok(rule, construct, p.pos(r.FnLoop.Pos()), "no blocking read in the loop's synchronous cone")
+	}
+}
+
+// readSideHandOvers: R15.11. The goroutine that waits for the next message hands its reader to the
+// connection loop over an unbuffered channel, and the goroutine that has read a frame's body hands it to the
+// frame executor over a bounded queue. Both receivers stop when the loop exits (the executor on the
+// connection context the loop cancels). A frame that arrives at that instant — the peer keeps sending while
+// the server cancels the connection's context, or while the dead-peer timer fires — leaves the sender
+// parked on a channel nobody receives from: one library goroutine, and the socket it references, retained
+// per dead connection. The hand-over must therefore be a blocking select with the exit signal (or the
+// connection context's Done channel) as an alternative; a non-blocking send is no hand-over and is left to
+// the read-cycle rule.
+func (c *Ctx) readSideHandOvers(rule string) {
+	p, r := c.P, c.R
+	if r.FIncoming == nil && r.FQueue == nil {
+		c.und(rule, "role:F_incoming/F_queue", "-", "neither the frame-header channel nor the frame queue could be resolved")
+		return
+	}
+	which := func(v ssa.Value) string {
+		switch {
+		case isLoadOf(v, r.FIncoming):
+			return "frame header to the loop"
+		case isLoadOf(v, r.FQueue):
+			return "frame body to the executor"
+		}
+		return ""
+	}
+	isCtxDone := func(v ssa.Value) bool {
+		ci, ok := v.(*ssa.Call)
+		if !ok {
+			return false
+		}
+		cm := ci.Common()
+		return cm.IsInvoke() && cm.Method.Name() == "Done" && isNamed(cm.Value.Type(), "context", "Context")
+	}
+	n := 0
+	for _, fn := range p.Funcs {
+		if pkgOf(fn) != p.Root.Pkg {
+			continue
+		}
+		allInstrs(fn, func(in ssa.Instruction) {
+			switch x := in.(type) {
+			case *ssa.Send:
+				if k := which(x.Chan); k != "" {
+					n++
+					c.bad(rule, fmt.Sprintf("%s: hand-over of a %s", fname(fn), k), c.ipos(x), "plain send: when the connection loop exits at the instant this frame has arrived (server-side context cancel or dead-peer timer while the peer is still sending) nobody receives any more, and this goroutine — with the connection it references — is retained for ever")
+				}
+			case *ssa.Select:
+				for _, st := range x.States {
+					if st.Dir != types.SendOnly {
+						continue
+					}
+					k := which(st.Chan)
+					if k == "" {
+						continue
+					}
+					n++
+					watches := !x.Blocking
+					for _, s2 := range x.States {
+						if s2.Dir == types.RecvOnly && (isLoadOf(s2.Chan, r.FExiting) || isCtxDone(s2.Chan)) {
+							watches = true
+						}
+					}
+					c.check(watches, rule, fmt.Sprintf("%s: hand-over of a %s", fname(fn), k), c.ipos(x), "select alternative to the exit signal", "the hand-over does not watch the connection's exit signal or context: it can park for ever once the loop is gone")
+				}
+			}
+		})
+	}
+	if n == 0 {
+		c.und(rule, "read-side hand-overs", "-", "no send on the frame-header channel or the frame queue found")
 	}
 }
